@@ -1,37 +1,56 @@
 #!/usr/bin/env python3
 """Maintenance helper: behaviour-preserving refactorings must leave every claimed check silent.
-For each <dir>/<k>/patch.diff: git -C /repo apply; run every claimed check (quick, no evidence written);
-git -C /repo checkout -- . (and remove files the patch added).  Anything other than rc 0 is printed.
-usage: python3-vt tools/run_refactors.py <dir with k/patch.diff> [...]"""
-import json, os, re, subprocess, sys
+Each /verif/refactors/<name>/patch.diff (or <dir>/<k>/patch.diff given on the command line) is applied *in memory* (source
+overlays, /repo is not touched); every claimed check runs (quick, no evidence written).  Anything other than rc 0 is printed.
+usage: python3-vt tools/run_refactors.py [<dir with k/patch.diff> | <name in /verif/refactors> ...]"""
+import concurrent.futures as cf
+import json, os, sys
 sys.path.insert(0, os.path.dirname(os.path.dirname(os.path.abspath(__file__))))
-from kdverif.__main__ import run_check
 
 claimed = [c["property_id"] for c in json.load(open("/verif/MANIFEST.json"))["checks"]]
-assert subprocess.run("git -C /repo status --porcelain", shell=True, capture_output=True,
-                      text=True).stdout.strip() == "", "/repo not clean"
-bad = 0
-total = 0
-for top in sys.argv[1:]:
-    for k in sorted(os.listdir(top)):
-        p = os.path.join(top, k, "patch.diff")
-        if not os.path.isfile(p):
+
+
+def patches(argv):
+    out = []
+    tops = argv or ["/verif/refactors"]
+    for top in tops:
+        if not os.path.isdir(top) and os.path.isdir(os.path.join("/verif/refactors", top)):
+            top = os.path.join("/verif/refactors", top)
+        if os.path.isfile(os.path.join(top, "patch.diff")):
+            out.append(os.path.join(top, "patch.diff"))
             continue
-        total += 1
-        r = subprocess.run(["git", "-C", "/repo", "apply", p], capture_output=True, text=True)
-        if r.returncode != 0:
-            print(p, "PATCH DOES NOT APPLY", r.stderr[:200])
-            continue
-        try:
-            for prop in claimed:
-                rc, rep = run_check(prop, "quick", write=False, quiet=True)
-                if rc != 0:
-                    bad += 1
-                    print(f"{p}: {prop} rc={rc}")
-                    for o in rep.fresh[:6]:
-                        print("     ", f"{o.rule} | {o.func} | {o.construct} :: {o.detail[:260]}")
-                    for e in rep.errors[:4]:
-                        print("      ERR", e[:300])
-        finally:
-            subprocess.run("git -C /repo checkout -- . && git -C /repo clean -fdq", shell=True)
-print("patches:", total, "bad:", bad)
+        for k in sorted(os.listdir(top)):
+            p = os.path.join(top, k, "patch.diff")
+            if os.path.isfile(p):
+                out.append(p)
+    return out
+
+
+def one(p):
+    from kdverif.__main__ import run_check
+    from kdverif.patching import overlays_from_patch
+    overlays = overlays_from_patch("/repo", open(p).read())
+    if overlays is None:
+        return p, [("-", "PATCH DOES NOT APPLY", [], [])]
+    res = []
+    for prop in claimed:
+        rc, rep = run_check(prop, "quick", overlays=overlays, write=False, quiet=True)
+        if rc != 0:
+            res.append((prop, rc, [f"{o.rule} | {o.func} | {o.construct} :: {o.detail[:260]}" for o in rep.fresh[:6]],
+                        [e[:300] for e in rep.errors[:4]]))
+    return p, res
+
+
+if __name__ == "__main__":
+    ps = patches(sys.argv[1:])
+    bad = 0
+    with cf.ProcessPoolExecutor(max_workers=min(14, max(1, len(ps)))) as ex:
+        for p, res in ex.map(one, ps):
+            for prop, rc, vio, errs in res:
+                bad += 1
+                print(f"{p}: {prop} rc={rc}")
+                for v in vio:
+                    print("     ", v)
+                for e in errs:
+                    print("      ERR", e)
+    print("patches:", len(ps), "bad:", bad)
